@@ -403,4 +403,100 @@ example : ∀ c ∈ ["SIMPLE  =                    T / file does conform to FITS
       "COMMENT   FITS (Flexible Image Transport System) format is defined in 'Astronomy".toList, "PERIOD1 =                   0.".toList],
     reserved (ffgknm (rstrip c)) = true := by decide
 
+/-- **histories refine the ordered map.**  Folding the operations of `aux.h` over any history (any keys and values,
+    accepted or not) equals folding the specification `Spec.apply` (put / del / nothing) and keeps the keys unique,
+    as long as no FITS round trip is involved; with round trips the same holds for plain keys and printable
+    values from an accepted store (`padStore` being the specification of the round trip). -/
+theorem C16_history_refines_map (st : Store) (ops : List Op) (hn : NoDupKeys st) :
+    ((∀ op ∈ ops, isFits op = false) →
+      runOps st ops = ops.foldl Spec.apply st ∧ NoDupKeys (runOps st ops)) ∧
+    (Accepted st → (∀ op ∈ ops, PlainOp op) → runOps st ops = ops.foldl Spec.apply st) := by
+  have hw : ∀ (s : Store) (k v : Str), NoDupKeys s →
+      (writeKey s k v).2 = (if validate k v = none then Spec.put s k v else s) := by
+    intro s k v hn
+    cases hacc : (writeKey s k v).1.accepted with
+    | true =>
+      have hv : validate k v = none := by
+        unfold writeKey at hacc
+        cases hv : validate k v with
+        | none => rfl
+        | some e => rw [hv] at hacc; exact absurd hacc (by simp [WOut.accepted])
+      rw [if_pos hv]; exact ((C16_aux_refines_ordered_map s hn).2.1 k v hacc).1
+    | false =>
+      have hv : validate k v ≠ none := by
+        intro hv
+        unfold writeKey at hacc
+        rw [hv] at hacc
+        by_cases hh : hasKey s k = true <;> simp [hh, WOut.accepted] at hacc
+      rw [if_neg hv]; exact C16_reject_unchanged s k v hacc
+  have hstep : ∀ (s : Store) (op : Op), NoDupKeys s → (isFits op = false ∨ Accepted s) →
+      (step s op).2 = Spec.apply s op := by
+    intro s op hn hf
+    cases op with
+    | writeStr k v => exact hw s k v hn
+    | writeText k v => exact hw s k v hn
+    | writeInt k n => exact hw s k (showInt n) hn
+    | remove k =>
+      show (removeKey s k).2 = Spec.del s k
+      rw [((C16_aux_refines_ordered_map s hn).2.2 k).1]
+    | get k => rfl
+    | readInt k => rfl
+    | readStr k => rfl
+    | readText k => rfl
+    | fits =>
+      rcases hf with hf | hf
+      · exact absurd hf (by simp [isFits])
+      · show (match fitsTrip s with | none => (Out.fitsWriteFailed, s) | some s' => (Out.fitsOk, s')).2 = padStore s
+        rw [(C16_accepted_survive_fits s hf).1]
+  have hnd : ∀ (s : Store) (op : Op), NoDupKeys s → isFits op = false → NoDupKeys (Spec.apply s op) := by
+    intro s op hn hf
+    cases op with
+    | writeStr k v => show NoDupKeys (if _ then _ else _); split; exact nodup_put s k v hn; exact hn
+    | writeText k v => show NoDupKeys (if _ then _ else _); split; exact nodup_put s k v hn; exact hn
+    | writeInt k n => show NoDupKeys (if _ then _ else _); split; exact nodup_put s k _ hn; exact hn
+    | remove k => exact nodup_del s k hn
+    | get k => exact hn
+    | readInt k => exact hn
+    | readStr k => exact hn
+    | readText k => exact hn
+    | fits => exact absurd hf (by simp [isFits])
+  constructor
+  · intro hops
+    induction ops generalizing st with
+    | nil => exact ⟨rfl, hn⟩
+    | cons op r ih =>
+      have hf := hops op (by simp)
+      have e := hstep st op hn (Or.inl hf)
+      have := ih (step st op).2 (e ▸ hnd st op hn hf) (fun o ho => hops o (by simp [ho]))
+      simp only [runOps, List.foldl_cons] at this ⊢
+      rw [← e]; exact this
+  · intro ha hops
+    induction ops generalizing st with
+    | nil => rfl
+    | cons op r ih =>
+      have e := hstep st op hn (Or.inr ha)
+      have hg := C16_history_survives st [op] hn ha (fun o ho => hops o (by simp only [List.mem_singleton] at ho; simp [ho]))
+      have := ih (step st op).2 hg.1 hg.2.1 (fun o ho => hops o (by simp [ho]))
+      simp only [runOps, List.foldl_cons] at this ⊢
+      rw [← e]; exact this
+
+example : runOps [] [Op.writeStr "A".toList "1".toList, .writeStr "b".toList "x".toList, .writeInt "B".toList 2, .writeStr "A".toList "3".toList, .remove "B".toList]
+    = [("A".toList, "3".toList)] := by decide
+
+/-- **the hypotheses on keys and values are needed** (the known findings of C16, as theorems about the model):
+    each of these entries is accepted by the repaired `write_key` and does not survive the round trip — empty key,
+    leading blank, trailing blank, explicit `HIERARCH ` prefix, END (this entry and all later ones are lost),
+    HISTORY, CONTINUE (value lost), a control character in the value (blanked). -/
+theorem C16_plain_hypotheses_needed :
+    (validate [] ['v'] = none ∧ fitsTrip [([], ['v'])] = some [([], [])]) ∧
+    (validate " LEADING SP".toList ['v'] = none ∧ (fitsTrip [(" LEADING SP".toList, ['v'])]).map keys = some ["LEADING SP".toList]) ∧
+    (validate "TRAILING SP ".toList ['v'] = none ∧ (fitsTrip [("TRAILING SP ".toList, ['v'])]).map keys = some ["TRAILING SP".toList]) ∧
+    (validate "HIERARCH FOO".toList ['v'] = none ∧ (fitsTrip [("HIERARCH FOO".toList, ['v'])]).map keys = some ["FOO".toList]) ∧
+    (validate endKey ['v'] = none ∧ fitsTrip [(['B'], ['0']), (endKey, ['v']), (['A'], ['1'])] = some [(['B'], "0       ".toList)]) ∧
+    (validate historyKey ['v'] = none ∧ fitsTrip [(historyKey, ['v'])] = some [(historyKey, [])]) ∧
+    (validate continueKey ['v'] = none ∧ fitsTrip [(continueKey, ['v'])] = some [(continueKey, [])]) ∧
+    (validate ['A'] "\t12".toList = none ∧ fitsTrip [(['A'], "\t12".toList)] = some [(['A'], " 12     ".toList)]) :=
+  ⟨⟨by decide, by decide⟩, ⟨by decide, by decide⟩, ⟨by decide, by decide⟩, ⟨by decide, by decide⟩, ⟨by decide, by decide⟩,
+   ⟨by decide, by decide⟩, ⟨by decide, by decide⟩, ⟨by decide, by decide⟩⟩
+
 end PsV
